@@ -73,6 +73,26 @@ CLAIMS = {
    technique="property-based testing over histories and all scales (record consistency oracle)",
    text="Every conversion of generated histories and of fresh quantizers over all 4095 scales: stairstep == note/12 bit-exact, stairstep+fraction within 2 ulps of the input (or its clamped value outside [0,10]), chromatic/no-history fraction in [0,1) semitone, window-kept fraction in [-0.1,1.1] semitones.",
    note=TRUST + "the window clause is armed only when the record shows the window path was taken (fraction reproduces the unclamped input); NaN inputs are left to C17."),
+ "C13": dict(engine="glide_c13", design="3 Glide / C13",
+   technique="property-based testing over generated input/set_time schedules with a history invariant (hull, monotone approach, no crossing, settling) and a derived f32-resolution allowance",
+   text="After every sample of generated schedules (times incl. 0 and <= 2/fs switched in mid-glide, inputs in [-10,10]) the output must stay in the hull of 0 and the inputs seen, approach a held input monotonically without crossing it, and be within 1% after max(3t, 8 samples); rounding allowance E_n = (1-a)E_{n-1} + 4 ulp reported as observed/allowed.",
+   note=TRUST + "times in [0,10], inputs in [-10,10]; in-band set_time calls may or may not take effect (slowest admissible time sizes the allowance)."),
+ "C14": dict(engine="glide_c14", design="3 Glide / C14",
+   technique="property-based testing of step responses over the (fs,t) plane plus differential testing of set_time histories against fresh instances",
+   text="Step responses of fresh processors over generated (fs, t, base, step): coverage in [0.40,0.55] at t/10 and >= 0.995 at t (t*fs >= 100), fastest response below two samples, t > 10 s identical to 10 s; histories of set_time calls (creep progressions inside/outside the 0.05 s dead band) must respond like a fresh processor at one of the times the statement allows to be in effect.",
+   note=TRUST + "an in-band call may be ignored or honoured; fresh processor = time 0."),
+ "C15": dict(engine="ribbon_history", design="3 Ribbon / C15",
+   technique="model-based property testing (run-length model + edge latches over generated multi-press histories at 16 compiled sample rates)",
+   text="After every sample of generated histories (glitches, taps of any length below the capture length, runs of exactly L*-1, L*, L*+1, long presses, separated by 1-3 out-of-range samples) finger_is_pressing() must equal (current unbroken run >= L*); edge getters compared with two latches at generated poll positions; L* must be capacity + settling (-1).",
+   note=TRUST + "samples at least 1e-3 away from the in-range boundary; integer sample rates from the compiled set."),
+ "C16": dict(engine="ribbon_history+ribbon_perturb", design="3 Ribbon / C16",
+   technique="property-based testing with an f64 reference computation plus metamorphic re-runs (earlier presses replaced, newest samples replaced, one sample raised)",
+   text="While pressed, value() is compared with an independent f64 computation from the samples of the current run only (window, pull-up correction, rescale), range and min/max clauses; retained bit-identically while lifted; three metamorphic relations give bit-exact independence from earlier presses and from the newest samples, and monotonicity in each contributing sample.",
+   note=TRUST + "pull-up >= divider resistance; tolerance 1e-5 + capacity*2^-23."),
+ "C17": dict(engine="api_any", design="3 Cross-cutting / C17",
+   technique="robustness property testing / API fuzzing under catch_unwind with overflow checks and debug assertions on (proptest; libFuzzer target api_any in the thorough tier) plus bounded-liveness checks of the envelope",
+   text="Generated call sequences on all six modules with range end points, subnormals, zeros, huge finite values and NaN/inf where allowed; any unwind is a violation; every generated envelope configuration must reach exactly sustain / exactly rest within twice the statement's tick bound.",
+   note=TRUST + "'fails to return' is decided as bounded liveness of the envelope (all other operations are loop-free); a wall-clock watchdog reports exit 2."),
 }
 
 NOT_YET = {}
